@@ -75,6 +75,46 @@ class VClock(object):
         return getattr(real_time, k)
 
 
+class PollProxy(object):
+    def __init__(self, clk):
+        self.clk = clk
+        self.p = select.poll()
+
+    def register(self, fd, mask=select.POLLIN | select.POLLPRI | select.POLLOUT):
+        self.p.register(fd, mask)
+
+    def unregister(self, fd):
+        self.p.unregister(fd)
+
+    def poll(self, timeout_ms=None):
+        import math
+        if timeout_ms is not None and timeout_ms < 0:
+            timeout_ms = None                       # poll(2): a negative timeout means "no timeout"
+        t = None if timeout_ms is None else math.ceil(timeout_ms) / 1000.0     # CPython rounds the timeout up to a whole millisecond
+        ok = self.clk.wait(lambda: bool(self.p.poll(0)), t)
+        return self.p.poll(0) if ok else []
+
+
+class SelectProxy(object):
+    """what `pexpect.utils` sees as the `select` module: the real wrappers (select_ignore_interrupts / poll_ignore_interrupts)
+    stay under test, only the system calls underneath them wait in virtual time"""
+
+    def __init__(self, clk):
+        self.clk = clk
+
+    def select(self, r, w, e, timeout=None):
+        if timeout is not None and timeout < 0:
+            raise ValueError('timeout must be non-negative')
+        ok = self.clk.wait(lambda: bool(select.select(r, w, e, 0)[0]), timeout)
+        return select.select(r, w, e, 0) if ok else ([], [], [])
+
+    def poll(self):
+        return PollProxy(self.clk)
+
+    def __getattr__(self, k):
+        return getattr(select, k)
+
+
 class Install(object):
     """context manager: virtual time in the pexpect modules, waits of the given spawn routed through the clock"""
 
@@ -83,20 +123,10 @@ class Install(object):
 
     def __enter__(self):
         clk = self.clk
-        self.saved = dict(EX=EX.time, PS=PS.time, PO=PO.time, UT=UT.time, sel=PS.select_ignore_interrupts, poll=PS.poll_ignore_interrupts,
-                          fsel=FD.select_ignore_interrupts, fpoll=FD.poll_ignore_interrupts, SBos=SB.os, PPos=PP.os)
+        self.saved = dict(EX=EX.time, PS=PS.time, PO=PO.time, UT=UT.time, UTsel=UT.select, SBos=SB.os, PPos=PP.os)
         EX.time = clk; PS.time = clk; PO.time = clk; UT.time = clk
-        osel, opoll = self.saved['sel'], self.saved['poll']
-
-        def sel(r, w, e, timeout=None):
-            ok = clk.wait(lambda: bool(osel(r, w, e, 0)[0]), timeout)
-            return (r if ok else [], [], [])
-
-        def poll(fds, timeout=None):
-            ok = clk.wait(lambda: bool(opoll(fds, 0)), timeout)
-            return fds if ok else []
-        PS.select_ignore_interrupts = sel; PS.poll_ignore_interrupts = poll
-        FD.select_ignore_interrupts = sel; FD.poll_ignore_interrupts = poll
+        # the wrappers in pexpect.utils run for real; the `select` module they call waits in virtual time
+        UT.select = SelectProxy(clk)
         ctl = self.ctl
 
         def waitpid(pid, opt):
@@ -116,8 +146,7 @@ class Install(object):
     def __exit__(self, *a):
         s = self.saved
         EX.time = s['EX']; PS.time = s['PS']; PO.time = s['PO']; UT.time = s['UT']
-        PS.select_ignore_interrupts = s['sel']; PS.poll_ignore_interrupts = s['poll']
-        FD.select_ignore_interrupts = s['fsel']; FD.poll_ignore_interrupts = s['fpoll']
+        UT.select = s['UTsel']
         SB.os = s['SBos']; PP.os = s['PPos']
         return False
 
